@@ -40,8 +40,29 @@ def same_code(got, src, reads=1):
 
 
 def label_rows(k):
+    """Carrier picture k. k = 0, 1: the plain pictures (their low bits happen to load as a cart); k >= 2: the same
+    pictures holding, in their low bits, something that is NOT a loadable cart -- the destination is still a perfectly
+    good 160x205 picture, and the one the user sees: 2, 3 a cart whose Lua has a syntax error (a work in progress saved
+    by PICO-8), 4, 5 arbitrary low bits, 6, 7 a ':c:' code header followed by a broken stream."""
     from props.c16 import carrier_rows
-    return [bytes(r) for r in carrier_rows(k)]
+    rows = [bytes(r) for r in carrier_rows(k % 2)]
+    if k < 2:
+        return rows
+    mem = bytearray(0x8000)
+    kind = (k - 2) // 2 % 3
+    if kind == 0:
+        code = b'function _init()\n if x then\n  y=1\n'
+        mem[0x4300:0x4300 + len(code)] = code
+    elif kind == 1:
+        v = 12345 + k
+        for i in range(0x8000):
+            v = (v * 1103515245 + 12345) & 0x7fffffff
+            mem[i] = (v >> 16) & 0xff
+    else:
+        code = b':c:\x00\x01\x00\x00\x00' + b'\x3c\xff\xff\x00\x01\x3d\xfe' * 40
+        mem[0x4300:0x4300 + len(code)] = code
+    mem.append(8)
+    return rc.stego_pack(bytes(mem), 160, 205, rows)
 
 
 def bundled_label_rows():
@@ -396,7 +417,7 @@ def run_shard(item):
     if kind == 'regions':
         for i in range(item[2], item[3]):
             fills = region_cart(i, item[1])
-            write_and_check(fills, 8 + i % 30, b'-- cart %d\nx=%d x=%d x=%d x=%d x=%d\n' % ((i,) * 6), i % 2 if i % 3 else None,
+            write_and_check(fills, 8 + i % 30, b'-- cart %d\nx=%d x=%d x=%d x=%d x=%d\n' % ((i,) * 6), i % 8 if i % 3 else None,
                             res, ('regions', i))
         if item[2] == 0:
             res.sample({'family': 'regions', 'cart': 0, 'dest': 'absent'})
@@ -410,8 +431,8 @@ def run_shard(item):
             res.sample({'family': 'versions', 'versions': VERSIONS[item[1]:item[2]]})
     elif kind == 'small':
         sc = small_codes()
-        for tag, code in sc[item[1]:item[2]]:
-            for dest in (None, 0):
+        for j, (tag, code) in enumerate(sc[item[1]:item[2]]):
+            for dest in (None, 0, 2 + (item[1] + j) % 6):
                 write_and_check({}, 33, code, dest, res, tag)
         res.sample({'family': 'small', 'code': sc[item[1]][1]})
     elif kind == 'cap':
